@@ -192,6 +192,8 @@ Proof.
     all: assert (Z0 : length (filter is_ack (rev (frames_of id l))) = 0%nat)
         by (clear; unfold frames_of; induction l as [|x t IH]; cbn [map rev]; [reflexivity|]; rewrite filter_app, app_length, IH; reflexivity).
     all: rewrite rev_length, Z0; cbn [Nat.add]; assumption.
+  - (* MSendBack *)
+    cbn [apply]. destruct (cl_pend_get _ _) as [pb|]; [|exact K]. sb_cases c pb; apply (KInv_same c); try reflexivity; auto.
   - (* MEncSync *) cbn [apply]. destruct (negb _); [|exact K]. apply (KInv_same c); try reflexivity; auto.
   - (* MHeaders *)
     cbn [apply]. destruct K as [k1 k2]. destruct opb; constructor; cc_cbn; rewrite acks_cons; cbn [is_ack Nat.add]; auto.
@@ -324,6 +326,7 @@ Proof.
     + destruct (notes_flags (cl_write_data (cc_maxFrame (cs_conn c pb id)) id (cs_chunk c pb) (cs_end c pb)) (cs_conn c pb id)) as (A & B & C & Dd & _).
       rewrite A, B, C, Dd, X1, X2, X3, X4. repeat split; auto.
     + rewrite X1, X2, X3, X4. repeat split; auto.
+  - destruct (cl_pend_get _ _) as [pb|]; [|repeat split; auto]. sb_cases c pb; repeat split; auto.
   - destruct (negb _); repeat split; auto; intro H; exfalso; apply H; reflexivity.
   - repeat split; auto. intros _ H. exfalso. exact (H rq eq_refl).
   - destruct opb; repeat split; auto.
@@ -400,6 +403,7 @@ Proof.
     + destruct (notes_flags (cl_write_data (cc_maxFrame (cs_conn c pb id)) id (cs_chunk c pb) (cs_end c pb)) (cs_conn c pb id)) as (_ & _ & _ & _ & E & F & G).
       rewrite E, F, G, X1, X2, X3. exact O.
     + rewrite X1, X2, X3. exact O.
+  - destruct (cl_pend_get _ _) as [pb|]; [|exact O]. sb_cases c pb; exact O.
   - destruct (negb _); exact O.
   - destruct opb; exact O.
 Qed.
